@@ -76,6 +76,8 @@ class Work:
     def __exit__(self, *a):
         if not self.keep:
             shutil.rmtree(self.dir, ignore_errors=True)
+        if getattr(self, 'shm', None):
+            shutil.rmtree(self.shm, ignore_errors=True)
 
     def sub(self, prefix='d'):
         with self._lock:            # called from worker threads
@@ -87,6 +89,10 @@ class Work:
 
     def mk(self, prefix='d'):
         p = self.sub(prefix)
+        # every sixth dump folder lives on another file system than the data directory and the system's temporary directory
+        if prefix == 'out' and self.n % 6 == 2 and os.environ.get('RBP_VERIF_NO_AMBIENT') is None and os.access('/dev/shm', os.W_OK):
+            self.shm = '/dev/shm/rbp-verif-%d' % os.getpid()
+            p = os.path.join(self.shm, os.path.basename(p))
         os.makedirs(p)
         return p
 
